@@ -18,6 +18,7 @@ import (
 	"math"
 	mrand "math/rand"
 	"path/filepath"
+	"sort"
 	"testing"
 
 	"go.minekube.com/common/minecraft/component"
@@ -371,6 +372,88 @@ func encode(p proto.Packet, c *proto.PacketContext) (out []byte, err error) {
 	return b.Bytes(), err
 }
 
+func reusePhase(tw *tracefmt.Writer, shapes []shape) int {
+	type group struct {
+		pkt string
+		p   []int
+		vs  []int
+	}
+	idx := map[string]*group{}
+	byPkt := map[string][]*group{}
+	var kinds []string
+	for _, s := range shapes {
+		k := fmt.Sprint(s.Pkt, s.P)
+		g := idx[k]
+		if g == nil {
+			g = &group{pkt: s.Pkt, p: s.P}
+			idx[k] = g
+			if byPkt[s.Pkt] == nil {
+				kinds = append(kinds, s.Pkt)
+			}
+			byPkt[s.Pkt] = append(byPkt[s.Pkt], g)
+		}
+		g.vs = append(g.vs, s.V)
+	}
+	per := tracefmt.EnvInt("VERIF_REUSE_GROUPS", 6)
+	n := 0
+	for _, kind := range kinds {
+		gs := byPkt[kind]
+		if kind == "plugin" { // every channel class, small payload
+			var sel []*group
+			for _, g := range gs {
+				if g.p[1] == 1 {
+					sel = append(sel, g)
+				}
+			}
+			gs = sel
+		} else if len(gs) > per {
+			var sel []*group
+			for i := 0; i < per; i++ {
+				sel = append(sel, gs[(len(gs)-1)*i/(per-1)])
+			}
+			gs = sel
+		}
+		for _, g := range gs {
+			vs := append([]int{}, g.vs...)
+			sort.Sort(sort.Reverse(sort.IntSlice(vs)))
+			newest := vs[0]
+			// values whose meaning is bound to an era of the protocol stay within that era
+			lo := 0
+			switch {
+			case kind == "keepalive" && g.p[0] >= 7:
+				lo = 340 // 64-bit ids
+			case kind == "disconnect" && g.p[0] != 0 && newest >= 765, kind == "upsert" && g.p[3]&2 != 0 && newest >= 765:
+				lo = 765 // NBT component built by the proxy (the JSON text of older protocols is opaque to the spec)
+			}
+			pk, ctx0, f := build(shape{Pkt: kind, V: newest, P: g.p})
+			for i, v := range vs {
+				if v < lo {
+					continue
+				}
+				ctx := *ctx0
+				ctx.Protocol = proto.Protocol(v)
+				if kind == "disconnect" {
+					reg := state.Login.ClientBound
+					if g.p[0] == 1 {
+						reg = state.Play.ClientBound
+					} else if g.p[0] == 2 {
+						reg = state.Config.ClientBound
+					}
+					ctx.PacketID = pid(reg, v, pk)
+				}
+				out, err := encode(pk, &ctx)
+				es := ""
+				if err != nil {
+					es = err.Error()
+				}
+				tw.Emit(tracefmt.Rec{"ev": "pkt", "pkt": kind, "v": v, "shape": g.p, "f": f, "bytes": bs(out), "err": es, "reuse": i + 1})
+				n++
+			}
+		}
+	}
+	return n
+}
+
 func TestEncode(t *testing.T) {
 	rng = mrand.New(mrand.NewSource(tracefmt.Seed()))
 	key, err := rsa.GenerateKey(rand.Reader, 1024)
@@ -406,6 +489,9 @@ func TestEncode(t *testing.T) {
 			samples = append(samples, map[string]any{"pkt": s.Pkt, "v": s.V, "f": f, "bytes": bs(out)})
 		}
 	}
+	// The same packet OBJECT written to several connections: built once for the newest protocol of its
+	// shape, then encoded for every protocol of that shape, newest first. What it means does not change.
+	nreuse := reusePhase(tw, shapes)
 	nfd := 0
 	for a := -20; a <= 20; a++ {
 		for b := -9; b <= 9; b++ {
@@ -420,5 +506,5 @@ func TestEncode(t *testing.T) {
 		t.Fatal(err)
 	}
 	tracefmt.WriteJSON("stats.json", map[string]any{"packets": len(shapes), "per_packet": perPkt, "encode_errors": nerr,
-		"floordiv": nfd, "samples": samples})
+		"floordiv": nfd, "samples": samples, "reused_encodes": nreuse})
 }
